@@ -149,6 +149,10 @@ func runOverlap(root, id string, c Case) (resA, resB result, bRan bool) {
 		if o.a.pan != nil {
 			panic(o.a.pan)
 		}
+		if environmentFailure(o.a.err, true) || environmentFailure(o.b.err, true) {
+			resA.Setup = "recorded:overlap/environment-failure - not judged"
+			return
+		}
 		// A's response is looked at only now, after B ended
 		fillResult(c, o.a, &resA)
 		if o.bRan {
@@ -270,6 +274,10 @@ func (d *driver) runConcurrent(g, rounds, procs int) concStats {
 				<-start
 				var o callOut
 				o.resp, o.err = invoke(ctx, cs[i].p, cs[i].c.Cmd, false)
+				if environmentFailure(o.err, true) {
+					d.r.Outcome("recorded:concurrent/environment-failure - not judged")
+					return
+				}
 				var res result
 				fillResult(cs[i].c, o, &res)
 				calls.Add(1)
